@@ -6,6 +6,7 @@ elements, affine simplex cells incl. immersed manifolds) under random combinatio
 options (pullbacks, integral scaling, geometry lowering with preserved types, Jacobian cancellation,
 default restrictions, restriction propagation, degree estimation, everywhere-appending, function
 replacement, complex mode, component tensor removal).
+The same for all forms of /repo/demo/*.py (corpus workload, `once`).
 Oracle: for every (integral type, subdomain id k):
       sum of S(preprocessed integrand) over the integral_data entries whose id tuple contains k
    =  scale * sum of S(original integrand) over the original integrals that apply to k,
@@ -32,7 +33,8 @@ LEVEL_TEXT = (
     "The real compute_form_data is run on generated forms under random option combinations; for every integral type and "
     "subdomain id the sum of the preprocessed integrands is compared, at random points of random affine cells (cell pairs "
     "for interior facets, manifolds, both orientations), with the scaled sum of the original integrands that apply there, "
-    "all evaluated by an independent interpreter in one world (50-digit confirmation).  Exploration over generated cases."
+    "all evaluated by an independent interpreter in one world (50-digit confirmation).  The same oracle judges every form of the "
+    "repository's demo files under the form-compiler option set and random option sets (corpus workload).  Exploration over generated cases."
 )
 LEVEL_NOTE = "trusted: vf/seval.py, vf/world.py (measure ratios from Cayley-Menger volumes); single mesh, affine simplex cells, degree<=3, no MeshSequence / external operators"
 RULE = (
@@ -49,7 +51,7 @@ ASSUMPTIONS = [
 BUDGET = {"quick": 60, "thorough": 480}
 NCASES = {"quick": 1600, "thorough": 40000}
 CASE_TIMEOUT = 40.0
-FLOORS = {"quick": {"case_held": 200, "groups_compared": 300}, "thorough": {"case_held": 5000, "groups_compared": 8000}}
+FLOORS = {"quick": {"case_held": 200, "groups_compared": 300, "corpus_held": 40}, "thorough": {"case_held": 5000, "groups_compared": 8000, "corpus_held": 400}}
 OPTS = ["do_apply_function_pullbacks", "do_apply_integral_scaling", "do_apply_geometry_lowering", "do_cancel_jacobian_products",
         "do_apply_default_restrictions", "do_apply_restrictions", "do_estimate_degrees", "do_append_everywhere_integrals",
         "do_replace_functions", "complex_mode", "do_remove_component_tensors"]
@@ -150,6 +152,99 @@ def case(ctx, i, rng):
         ctx.count("build_rejected")
         ctx.covered("build_rejected_with", type(ex).__name__)
         return
+    judge(ctx, form, pieces, opts, cell, gdim, cplx, rng)
+
+
+def pieces_of(form):
+    """(integral type, subdomain id, integrand, metadata) of every integral of a form that was not generated here."""
+    return [(itg.integral_type(), itg.subdomain_id(), itg.integrand(), itg.metadata()) for itg in form.integrals()]
+
+
+def demo_forms():
+    """All forms of the repository's demo files (the corpus workload), as (file name, form name, form)."""
+    import glob
+    import os
+
+    from ufl.algorithms import load_ufl_file
+
+    from .. import REPO_DIR
+
+    ddir = os.path.join(REPO_DIR, "demo")
+    if not os.path.isdir(ddir):
+        ddir = "/repo/demo"
+    tdir = os.path.join(os.path.dirname(ddir), "test")  # the demos import the element helpers of test/utils.py
+    if not os.path.isdir(tdir):
+        tdir = "/repo/test"
+    import sys
+
+    if tdir not in sys.path:
+        sys.path.append(tdir)
+    out = []
+    for fn in sorted(glob.glob(os.path.join(ddir, "*.py"))):
+        base = os.path.basename(fn)
+        if base in ("utils.py",):
+            continue
+        try:
+            data = load_ufl_file(fn)
+        except Exception as ex:
+            out.append((base, "load-error: " + type(ex).__name__, None))
+            continue
+        names = {id(v): k for k, v in data.object_names.items()} if hasattr(data, "object_names") else {}
+        for k, f in enumerate(data.forms):
+            out.append((base, names.get(id(f), str(k)), f))
+    return out
+
+
+SIMPLEX = {"interval": 1, "triangle": 2, "tetrahedron": 3}
+
+
+def once(ctx):
+    """Corpus workload: every demo form of the repository under several option combinations."""
+    import random
+
+    nrep = {"quick": 3, "thorough": 24}[ctx.tier]
+    forms = demo_forms()
+    ctx.count("corpus_forms_seen", len(forms) if ctx.sub == 0 else 0)
+    for k, (fn, name, form) in enumerate(forms):
+        if k % ctx.nsub != ctx.sub:
+            continue
+        if form is None:
+            ctx.count("corpus_load_errors")
+            continue
+        try:
+            doms = form.ufl_domains()
+            if len(doms) != 1:
+                ctx.count("corpus_skipped_domains")
+                continue
+            cell = doms[0].ufl_cell().cellname
+            gdim = doms[0].geometric_dimension
+            if cell not in SIMPLEX or doms[0].ufl_coordinate_element().embedded_superdegree != 1:
+                ctx.count("corpus_skipped_cell")
+                continue
+        except Exception:
+            ctx.count("corpus_skipped_domains")
+            continue
+        pieces = pieces_of(form)
+        for r in range(nrep):
+            if ctx.time_left() < 5:
+                ctx.count("corpus_not_reached_time_budget")
+                return
+            rng = random.Random(f"C01/corpus/{ctx.seed}/{fn}/{name}/{r}")
+            opts = random_options(rng)
+            if r == 0:
+                # the combination a form compiler uses
+                opts = {o: True for o in OPTS}
+                opts["complex_mode"] = False
+            ctx.case_index = None
+            ctx.count("corpus_runs")
+            before = ctx.counters.get("case_held", 0)
+            judge(ctx, form, pieces, opts, cell, gdim, opts["complex_mode"], rng, tag="corpus:" + fn)
+            if ctx.counters.get("case_held", 0) > before:
+                ctx.count("corpus_held")
+                ctx.covered("corpus_files_held", fn)
+
+
+def judge(ctx, form, pieces, opts, cell, gdim, cplx, rng, tag=None):
     try:
         fd = compute_form_data(form, **opts)
     except (Exception, ufl.algorithms.check_arities.ArityMismatch, ufl.algorithms.comparison_checker.ComplexComparisonError) as ex:
@@ -241,7 +336,7 @@ def case(ctx, i, rng):
         itype, k, bad, ins, outs, w0 = worst
         culprit = minimal_options(form, opts, pieces, itype, k, cell, gdim, cplx, rng)
         ctx.violation(f"C01/{itype}/{culprit}" + ("/manifold" if gdim > E.TD[cell] else ""),
-                      f"compute_form_data changed what is integrated on ({itype}, subdomain {k}): {bad.kind}, rel. err {bad.err}, {bad.why}",
+                      f"compute_form_data changed what is integrated on ({itype}, subdomain {k}): {bad.kind}, rel. err {bad.err}, {bad.why}" + (f" [{tag}]" if tag else ""),
                       {"options": {a: (b if isinstance(b, bool) else [c.__name__ for c in b]) for a, b in opts.items()},
                        "original": [safe_str(x, 500) for x in ins], "preprocessed": [safe_str(x, 700) for x in outs], "world": w0.describe()})
         return
@@ -254,7 +349,7 @@ def case(ctx, i, rng):
             ctx.covered("itypes_held", it)
         ctx.add_distinct((tuple(sorted(o for o in OPTS if opts[o])), tuple(sorted({p[0] for p in pieces})), skeleton(pieces[0][2], 2), cell, gdim))
         ctx.sample({"options_on": [o for o in OPTS if opts[o]], "integrals": [[p[0], str(p[1])] for p in pieces], "cell": [cell, gdim],
-                    "first_integrand": safe_str(pieces[0][2], 200)})
+                    "first_integrand": safe_str(pieces[0][2], 200)} | ({"corpus": tag} if tag else {}))
     else:
         ctx.count("case_undecided")
 
